@@ -29,10 +29,11 @@ type Case struct {
 	Discovery bool
 	Retry     bool
 	TwoAddrs  bool
+	DeadFirst bool // the first of the publisher's addresses refuses connections
 	Attempts  []fault // 1 or 2 faulty attempts (one fault each), followed by a fault-free attempt
 }
 
-var kinds = []string{"s400", "s403", "s404", "s429", "s500", "s503", "reset", "truncate", "flipbit", "stall", "cancelcaller", "hookfail"}
+var kinds = []string{"s400", "s403", "s404", "s429", "s500", "s503", "reset", "truncate", "flipbit", "stall", "cancelcaller", "hookfail", "badaddr", "noaddr"}
 
 func genCase(t *rapid.T) Case {
 	c := Case{N: rapid.IntRange(1, 6).Draw(t, "n"), InitPos: -1}
@@ -44,6 +45,7 @@ func genCase(t *rapid.T) Case {
 	c.Discovery = rapid.Bool().Draw(t, "discovery")
 	c.Retry = rapid.IntRange(0, 3).Draw(t, "retry") == 0
 	c.TwoAddrs = rapid.IntRange(0, 3).Draw(t, "twoaddrs") == 0
+	c.DeadFirst = rapid.IntRange(0, 3).Draw(t, "deadfirst") == 0
 	na := rapid.IntRange(1, 2).Draw(t, "nattempts")
 	for i := 0; i < na; i++ {
 		f := fault{Kind: rapid.SampledFrom(kinds).Draw(t, "kind"), At: rapid.IntRange(-1, c.N-1).Draw(t, "at"), Pos: rapid.IntRange(0, 4096).Draw(t, "pos")}
@@ -61,6 +63,9 @@ func genCase(t *rapid.T) Case {
 		if f.At == -1 && c.Entry == "announce" {
 			f.At = 0
 		}
+		if f.Kind == "badaddr" || f.Kind == "noaddr" {
+			f.At = 0
+		}
 		c.Attempts = append(c.Attempts, f)
 	}
 	return c
@@ -72,6 +77,8 @@ func applicable(c Case, f fault) bool {
 		return c.Entry == "sync"
 	case "hookfail":
 		return c.Seg > 0 && f.At >= 0
+	case "badaddr", "noaddr":
+		return f.At == 0
 	}
 	if f.At == -1 && c.Entry == "announce" {
 		return false // no head request in an announce-triggered sync
@@ -98,6 +105,9 @@ func setup(c Case) (*run, error) {
 	p.ExtendAds(c.N)
 	if c.TwoAddrs {
 		p.AddAlias()
+	}
+	if c.DeadFirst {
+		p.AddDead()
 	}
 	opts := []dagsync.Option{dagsync.SegmentDepthLimit(c.Seg)}
 	if c.Retry {
@@ -131,11 +141,18 @@ func quiesce() {
 }
 
 // attempt runs one sync of the head; returns (succeeded, error text).
-func (r *run) attempt(c Case, ctx context.Context) (bool, string, string) {
+func (r *run) attempt(c Case, ctx context.Context, addr string) (bool, string, string) {
 	head := r.chain[c.N-1]
 	ev0 := r.s.NEvents()
+	info := r.p.Info()
+	switch addr {
+	case "badaddr":
+		info = r.p.BadInfo()
+	case "noaddr":
+		info.Addrs = nil
+	}
 	if c.Entry == "announce" {
-		if err := r.s.S.Announce(ctx, head, r.p.Info()); err != nil {
+		if err := r.s.S.Announce(ctx, head, info); err != nil {
 			return false, "Announce: " + err.Error(), ""
 		}
 		quiesce()
@@ -151,7 +168,7 @@ func (r *run) attempt(c Case, ctx context.Context) (bool, string, string) {
 		}
 		return true, "", ""
 	}
-	got, err := r.s.S.SyncAdChain(ctx, r.p.Info())
+	got, err := r.s.S.SyncAdChain(ctx, info)
 	quiesce()
 	evs := r.s.EventsFrom(ev0)
 	if err != nil {
@@ -208,7 +225,7 @@ func runCase(t *testing.T) func(Case) pbt.Result {
 			}
 			defer r.w.Close()
 			h0 := r.s.NHooks()
-			ok, e, v := r.attempt(c, context.Background())
+			ok, e, v := r.attempt(c, context.Background(), "")
 			if !ok || v != "" {
 				res.Fail = fmt.Sprintf("reference (fault-free) run failed: %s %s", e, v)
 			}
@@ -247,6 +264,8 @@ func runCase(t *testing.T) func(Case) pbt.Result {
 				wf := wfault(f, cancel, 0)
 				r.s.ArmHook(-1)
 				switch {
+				case f.Kind == "badaddr" || f.Kind == "noaddr":
+					r.p.ArmFaults(nil, nil)
 				case f.Kind == "hookfail":
 					r.s.ArmHook(f.At)
 					r.p.ArmFaults(nil, nil)
@@ -257,7 +276,7 @@ func runCase(t *testing.T) func(Case) pbt.Result {
 				}
 				latest0 := r.s.Latest(r.p.ID)
 				req0, hk0 := len(r.w.Requests()), r.s.NHooks()
-				ok, errText, viol := r.attempt(c, ctx)
+				ok, errText, viol := r.attempt(c, ctx, f.Kind)
 				cancel()
 				what := fmt.Sprintf("attempt %d with %s at %d", ai, f.Kind, f.At)
 				if viol != "" {
@@ -269,6 +288,10 @@ func runCase(t *testing.T) func(Case) pbt.Result {
 					return
 				}
 				reached := f.Kind == "hookfail" && r.s.NHooks()-hk0 > f.At
+				if f.Kind == "badaddr" || f.Kind == "noaddr" {
+					// the sync cannot even start: no request is made
+					reached = !ok
+				}
 				for _, rq := range r.w.Requests()[req0:] {
 					if rq.Fault != "" {
 						reached = true
@@ -314,7 +337,7 @@ func runCase(t *testing.T) func(Case) pbt.Result {
 				}
 			}
 			req0, hk0 := len(r.w.Requests()), r.s.NHooks()
-			ok, errText, viol := r.attempt(c, context.Background())
+			ok, errText, viol := r.attempt(c, context.Background(), "")
 			var reqLog []string
 			var gotReq []int
 			for _, rq := range r.w.Requests()[req0:] {
@@ -374,7 +397,7 @@ func runCase(t *testing.T) func(Case) pbt.Result {
 	}
 }
 
-const rule = "chain of 1..6 ads, optional earlier sync of a prefix, segmented (1, 2) or not, explicit or announce-triggered, plain or discovery transport, optional retryable client, one or two publisher addresses; 1 or 2 faulty attempts, each with one fault (HTTP 400/403/404/429/500/503, connection reset, truncated body, bit flip, stalled response, caller context cancelled, FailSync from the hook) at the head request or at any block-request index, then a fault-free attempt; oracle: differential against a fault-free run of the same configuration in a fresh world: a failed attempt leaves latest-sync unchanged, emits no success notification and (announce) exactly one error notification for the announced CID; a successful attempt ends at the head; the fault-free attempt succeeds, latest-sync, store contents and reported blocks equal the fault-free run and it requests exactly the segment blocks not yet stored; every stored block hashes to its CID. Non-trivial: the fault was reached and the attempt failed; distinct by (fault kind, request index, chain length, entry kind, transport, segment size)."
+const rule = "chain of 1..6 ads, optional earlier sync of a prefix, segmented (1, 2) or not, explicit or announce-triggered, plain or discovery transport, optional retryable client, one or two publisher addresses; optionally a first address that refuses connections; 1 or 2 faulty attempts, each with one fault (HTTP 400/403/404/429/500/503, connection reset, truncated body, bit flip, stalled response, caller context cancelled, FailSync from the hook, at the head request or at any block-request index; or the sync cannot start at all: sender information with only a non-HTTP address, or with no address), then a fault-free attempt; oracle: differential against a fault-free run of the same configuration in a fresh world: a failed attempt leaves latest-sync unchanged, emits no success notification and (announce) exactly one error notification for the announced CID; a successful attempt ends at the head; the fault-free attempt succeeds, latest-sync, store contents and reported blocks equal the fault-free run and it requests exactly the segment blocks not yet stored; every stored block hashes to its CID. Non-trivial: the fault was reached and the attempt failed; distinct by (fault kind, request index, chain length, entry kind, transport, segment size)."
 
 func TestC04_Random(t *testing.T) {
 	pbt.Run(t, pbt.Config{Prop: "C04", Unit: "TestC04_Random", Rule: rule, TrackCurrent: true}, genCase, runCase(t))
@@ -388,7 +411,7 @@ func TestC04_Exhaustive(t *testing.T) {
 		pairs = true
 	}
 	pbt.RunEnum(t, pbt.Config{Prop: "C04", Unit: "TestC04_Exhaustive", TrackCurrent: true,
-		Rule: fmt.Sprintf("exhaustive single faults: chain lengths %v x all 12 fault kinds x every request index (head, 0..n-1) x {explicit, announce} x {plain, discovery} x {unsegmented, segment 1}; thorough adds all ordered pairs of faults for n = 3; same oracle as TestC04_Random.", ns),
+		Rule: fmt.Sprintf("exhaustive single faults: chain lengths %v x all 14 fault kinds x every request index (head, 0..n-1) x {explicit, announce} x {plain, discovery} x {unsegmented, segment 1}; thorough adds all ordered pairs of faults for n = 3; same oracle as TestC04_Random.", ns),
 	}, func(yield func(Case) bool) {
 		for _, n := range ns {
 			for _, k := range kinds {
